@@ -13,15 +13,16 @@ LGB = [0, 6, 9, 15, 20]
 
 def run(tier, seed, t0):
     thorough = tier == "thorough"
-    reps = 12 if thorough else 1
+    reps = 240 if thorough else 1
     jobs = []
     for fl in ("optim", "debug"):
         for be in vbuild.BACKENDS:
-            for icls in range(5):
+            for icls in range(7):
                 for lgB in LGB:
                     r = reps if fl == "optim" else max(1, reps // 4)
                     jobs.append(Job("%s-%s-c%d-b%d" % (fl, be, icls, lgB), "drv_c10", fl, be,
-                                    ["--seed", seed, "--icls", icls, "--lgB", lgB, "--reps", r, "--tag", "%s-%s" % (fl, be)],
+                                    ["--seed", seed, "--icls", icls, "--lgB", lgB, "--reps", r, "--tag", "%s-%s" % (fl, be),
+                                     "--heapphase", (-1, 0, 16, 100)[(icls + LGB.index(lgB) + seed) % 4]],
                                     timeout=1800))
 
     def post(results, agg):
